@@ -176,7 +176,7 @@ Lemma update_reg_post s r q k t idx :
   r_kick r = Some k -> owner_of (d_masks s) q 0 = Some (t, idx) ->
   registered (update_reg s r q) t k = r_ready r && r_enabled r.
 Proof.
-  intros Hk Ho. unfold update_reg. rewrite Hk, Ho.
+  intros Hk Ho. unfold update_reg, GenCtl.ctl_reg_wanted. rewrite Hk, Ho.
   destruct (r_ready r && r_enabled r) eqn:E.
   - fold (registered s t k). destruct (registered s t k) eqn:Er; [exact Er|].
     unfold registered, set_regs. cbn [d_regs]. rewrite existsb_app. cbn [existsb g_thread g_kfd].
@@ -187,7 +187,7 @@ Qed.
 
 Lemma update_reg_rings s r q : d_rings (update_reg s r q) = d_rings s.
 Proof.
-  unfold update_reg. destruct (r_kick r); [|reflexivity].
+  unfold update_reg, GenCtl.ctl_reg_wanted. destruct (r_kick r); [|reflexivity].
   destruct (owner_of (d_masks s) q 0) as [[t idx]|]; [|reflexivity].
   destruct (r_ready r && r_enabled r); [destruct (existsb _ _)|]; reflexivity.
 Qed.
